@@ -467,7 +467,7 @@ class BuiltinMixin:
     # ------------------------------------------------------------------ spec-only functions (contract language)
     SPEC_ONLY = {"card", "implies", "iff", "forall", "exists", "subset", "set_eq", "old", "is_class", "keys_of",
                  "ty_is", "same_class", "unchanged", "fresh_obj", "no_effects", "effects", "attr", "sel", "tuple2", "sval", "ival",
-                 "local", "accepts", "matches", "is_json", "as_set_of", "distinct", "cls_name", "clsattr", "written_text", "opened_path", "ext", "box_bool", "tl_get", "raw_tq_ok", "is_blank", "attr_of", "eq_str", "mro_of", "as_dict", "as_list", "as_set", "seq_len", "dict_len", "truthy", "dict_get", "pyeval_str", "at", "is_none"}
+                 "local", "sub_accepts", "attr_set", "accepts", "matches", "is_json", "as_set_of", "distinct", "cls_name", "clsattr", "written_text", "opened_path", "ext", "box_bool", "tl_get", "raw_tq_ok", "is_blank", "attr_of", "eq_str", "mro_of", "as_dict", "as_list", "as_set", "seq_len", "dict_len", "truthy", "dict_get", "pyeval_str", "at", "is_none"}
     SPEC_CONSTS = {}
 
     def bi_card(self, node, st, fr):
@@ -823,3 +823,19 @@ class BuiltinMixin:
         v = self.voc
         k = self.bv("jk")
         return z3.ForAll([k], z3.Implies(v.dhas(d, k), v.ty(k) == v.cls["str"]), patterns=[v.dhas(d, k)])
+
+    def bi_sub_accepts(self, node, st, fr):
+        """sub_accepts(a, b): pseudo-type b accepts every string pseudo-type a accepts (C09's condition for a replace pair).
+        Uninterpreted; the only assumed instance is (IntString, FloatString) - audited by the bounded grammar stand-in."""
+        v = self.voc
+        f = v.fn("sub_accepts", v.Val, v.Val, z3.BoolSort())
+        if not getattr(self, "_sub_done", False):
+            self._sub_done = True
+            self.global_facts.append(f(v.clsobj(v.cls["IntString"]), v.clsobj(v.cls["FloatString"])))
+            self.used_assumptions.add("int(s) succeeds => float(s) succeeds for every str s (sub_accepts(IntString, FloatString)); audited bounded")
+        return SV(f(self.box(self.ev(node.args[0], st, fr)), self.box(self.ev(node.args[1], st, fr))), "bool")
+
+    def bi_attr_set(self, node, st, fr):
+        obj = self.ev(node.args[0], st, fr)
+        r = self.read_attr(obj, ast.literal_eval(node.args[1]), st, fr)
+        return SV(self.box(r), "set")
